@@ -535,4 +535,84 @@ theorem nested_quantile_ok (crit : Crit Rex) (c₁ c₂ : Confidence Rex) (hv₁
     ∃ i₁ : Interval ℕ, Quantile.ciIndices crit c₁ n q = .ok i₁ :=
   Quantile.ok_transfer crit c₁ c₂ hv₁ hv₂ hz₁ n q i₂ h₂
 
+/-! ## non-vacuity
+
+  Oracle `linCrit` (`p ↦ p − 1/2`: monotone, zero at `1/2`); states built from the sample `1, 2, 4`
+  (`exArith`, and the paired / geometric / harmonic states over it), the two samples `1, 2` and
+  `3, 5` (`exUnpaired`), `k = 3` of `n = 10` (Wilson), `k = 12` of `n = 30` (Wald), the median of
+  `n = 10` (quantile ranks). Every producer succeeds on them for **every** valid confidence, so each
+  hypothesis `… = .ok I` above is met, at any kind and at any pair of levels. -/
+
+section nonvacuity
+
+example : CritMono linCrit ∧ CritHalf linCrit := ⟨linCrit_mono, linCrit_half⟩
+
+/-- levels: `L = 0.95` one-sided, `2L − 1` two-sided; two levels of one kind, `L₁ ≤ L₂`;
+    the side condition "two-sided, or level `≥ 1/2`" -/
+example : (1 / 2 : ℝ) < 0.95 ∧ (0.95 : ℝ) < 1 ∧ ValidLevel (.twoSided (⟨2 * 0.95 - 1⟩ : Rex)) ∧
+    ValidLevel (.upper (⟨0.95⟩ : Rex)) ∧ ValidLevel (.lower (⟨0.95⟩ : Rex)) := by
+  have h1 : (1 / 2 : ℝ) < 0.95 := by norm_num
+  have h2 : (0.95 : ℝ) < 1 := by norm_num
+  exact ⟨h1, h2, validLevel_two _ h1 h2, validLevel_upper _ h1 h2, validLevel_lower _ h1 h2⟩
+
+example : ∃ c₁ c₂ : Confidence Rex, ValidLevel c₁ ∧ ValidLevel c₂ ∧ c₁.kind = c₂.kind ∧
+    c₁.level.val ≤ c₂.level.val ∧ c₁.level.val ≠ c₂.level.val ∧
+    (c₁.isTwoSided = true ∨ 1 / 2 ≤ c₁.level.val) := by
+  refine ⟨.upper ⟨0.6⟩, .upper ⟨0.9⟩, ?_, ?_, rfl, ?_, ?_, Or.inr ?_⟩ <;>
+    simp only [ValidLevel, Confidence.level] <;> norm_num
+
+/-- the premise of every `one_vs_two_*`: the two-sided call at `2L − 1` succeeds -/
+example : (∃ lo hi, exArith.ciMean linCrit (.twoSided ⟨2 * 0.95 - 1⟩) = .ok (.twoSided lo hi)) ∧
+    (∃ lo hi, ciWilson linCrit (.twoSided ⟨2 * 0.95 - 1⟩) 10 3 = .ok (.twoSided lo hi)) := by
+  have hv := validLevel_two 0.95 (by norm_num) (by norm_num)
+  constructor
+  · obtain ⟨J, hJ, ⟨lo, hi, rfl⟩, _⟩ := exArith_ok _ hv
+    exact ⟨lo, hi, hJ⟩
+  · obtain ⟨I, hI⟩ := exWilson_ok _ hv
+    obtain ⟨lo, hi, rfl⟩ := ciWilson_kind linCrit _ 10 3 I hI
+    exact ⟨lo, hi, hI⟩
+
+/-- every producer succeeds for every valid confidence on the instances above (Wald: with a
+    non-negative critical value); the harmonic side conditions hold as well -/
+example (conf : Confidence Rex) (hv : ValidLevel conf) :
+    (∃ I, exArith.ciMean linCrit conf = .ok I) ∧ (∃ I, exPaired.ciMean linCrit conf = .ok I) ∧
+    (∃ I, exUnpaired.ciMean linCrit conf = .ok I) ∧ (∃ I, exGeo.ciMean linCrit conf = .ok I) ∧
+    ((∃ I, exHarm.ciMean linCrit conf = .ok I) ∧ 0 < exHarm.recip.mean.val ∧
+      ∀ J, exHarm.recip.ciMean linCrit conf.flipped = .ok J → PosBounds J) ∧
+    (∃ I, ciWilson linCrit conf 10 3 = .ok I) ∧
+    (conf.isTwoSided = true ∨ 1 / 2 ≤ conf.level.val → ∃ I, ciZNormal linCrit conf 30 12 = .ok I) ∧
+    (∃ I, Quantile.ciIndices linCrit conf 10 (inj (1 / 2)) = .ok I) := by
+  obtain ⟨J, hJ, _, _⟩ := exArith_ok conf hv
+  exact ⟨⟨J, hJ⟩, ⟨J, hJ⟩, exUnpaired_ok conf hv, exGeo_ok conf hv, exHarm_ok conf hv,
+    exWilson_ok conf hv, exWald_ok conf hv, exQuantile_ok conf hv⟩
+
+/-- the carrier-generic hypothesis `l = (twoSided l₂).quantile` is met at `Rex` by `l = L`,
+    `l₂ = 2L − 1` -/
+example : (⟨0.95⟩ : Rex) = (Confidence.twoSided (⟨2 * 0.95 - 1⟩ : Rex)).quantile :=
+  (quantile_two 0.95).symm
+
+/-- the side condition of `contains_estimate_wilson` cannot be dropped for the one-sided kinds: at the
+    valid upper one-sided level `0.3 < 1/2` the (monotone, symmetric) oracle `linCrit` answers
+    `z = −0.2`, the call succeeds, and the interval `[lo, 1]` has `lo > k/n`: the observed
+    proportion is *not* contained. -/
+example : ∃ I, ciWilson linCrit (.upper ⟨0.3⟩) 10 3 = .ok I ∧
+    I.contains (div (Scalar.ofNat 3) (Scalar.ofNat 10) : Rex) = false := by
+  have hv : ValidLevel (.upper (⟨0.3⟩ : Rex)) := by
+    constructor <;> simp only [Confidence.level] <;> norm_num
+  refine ⟨_, ciWilson_rex_eq linCrit _ 10 3 (by norm_num) (by norm_num) (probOk_of_valid _ hv)
+    (by simp [Confidence.isTwoSided]), ?_⟩
+  have hz : zOf linCrit (.upper (⟨0.3⟩ : Rex)) = -0.2 := by
+    rw [zOf_linCrit]; simp only [Confidence.quantile]; norm_num
+  rw [hz, lowerR_neg]
+  have h1 := ratio_le_upperR ((10 : ℕ) : ℝ) ((3 : ℕ) : ℝ) 0 (by norm_num) le_rfl (by norm_num)
+    (by norm_num)
+  have h2 := upperR_strictMono_z ((10 : ℕ) : ℝ) ((3 : ℕ) : ℝ) 0 0.2 (by norm_num) le_rfl
+    (by norm_num) (by norm_num) (by norm_num)
+  simp only [propShape, Interval.contains, Bool.and_eq_false_imp, RR.le_iff, RR.div_val,
+    RR.ofNat_val, id_eq]
+  intro h
+  linarith
+
+end nonvacuity
+
 end StatsCI.C10
